@@ -61,7 +61,7 @@ BRANCHES = [
     "PauliSum.__repr__:empty", "PauliTerm.__repr__:constant", "ExpectationValues.from_dict:correlations",
     "ExpectationValues.from_dict:covariances", "Parities.from_dict:correlations", "save_nmeas_estimate:frames",
 ]
-BUDGET = {"quick": (4, 45, 12000), "thorough": (16, 200, 120000)}
+BUDGET = {"quick": (4, 45, 20000), "thorough": (16, 200, 120000)}
 MIN_EVALS = {"quick": 1000, "thorough": 5000}
 
 _TMP = None
